@@ -24,7 +24,7 @@ func baseW2(prop string, seed uint64) (*Scenario, *gen) {
 	sc.Settle = 2 * time.Minute
 	sc.DownTime = g.dur(time.Second, 10*time.Second)
 	if g.pct(30) {
-		for _, o := range []string{"stage.prepare", "stage.receive.begin", "stage.receive.written", "stage.received", "stage.scan"} {
+		for _, o := range []string{"stage.prepare", "stage.receive.begin", "stage.receive.written", "stage.received", "stage.scan", "stage.pathlock"} {
 			if g.pct(30) {
 				sc.Hot = append(sc.Hot, o)
 			}
